@@ -101,4 +101,55 @@ Section NestFacts.
     - intro H. apply (chk_closes l [] H).
     - apply wn_chk.
   Qed.
+
+  (* the machine's verdict on p ++ x depends on x only through the machine's verdicts on x *)
+  Lemma chk_congr_prefix : forall (p x y : list tok),
+    (forall st, chk keqb st x = chk keqb st y) -> forall st, chk keqb st (p ++ x) = chk keqb st (p ++ y).
+  Proof.
+    induction p as [|t p IH]; intros x y H st; simpl.
+    - apply H.
+    - destruct t as [k|k|].
+      + apply IH. exact H.
+      + destruct st as [|k' st]; [reflexivity|]. destruct (keqb k k'); [apply IH; exact H | reflexivity].
+      + apply IH. exact H.
+  Qed.
+
+  (* templates: a stream made of literal pieces and of holes filled with well-nested streams is
+     well nested when the literal pieces alone are *)
+  Inductive piece := Lit (l : list tok) | Hole (l : list tok).
+  Definition piece_body (p : piece) : list tok := match p with Lit l | Hole l => l end.
+  Definition piece_lit (p : piece) : list tok := match p with Lit l => l | Hole _ => [] end.
+  Definition flat (ps : list piece) : list tok := concat (map piece_body ps).
+  Definition skel (ps : list piece) : list tok := concat (map piece_lit ps).
+  Definition holes_wn (ps : list piece) : Prop :=
+    Forall (fun p => match p with Hole h => wn h | Lit _ => True end) ps.
+
+  Lemma chk_template : forall ps, holes_wn ps -> forall st r,
+    chk keqb st (flat ps ++ r) = chk keqb st (skel ps ++ r).
+  Proof.
+    induction 1 as [|p ps Hp Hps IH]; intros st r; unfold flat, skel in *; simpl.
+    - reflexivity.
+    - destruct p as [l|h]; simpl.
+      + rewrite <- !app_assoc. apply chk_congr_prefix. intro st'. apply IH.
+      + rewrite <- app_assoc. rewrite chk_wn_prefix by exact Hp. apply IH.
+  Qed.
+
+  Theorem wn_template : forall ps, holes_wn ps -> wn (skel ps) -> wn (flat ps).
+  Proof.
+    intros ps Hh Hs. apply chk_iff_wn. apply chk_iff_wn in Hs.
+    rewrite <- (app_nil_r (flat ps)). rewrite chk_template by exact Hh. rewrite app_nil_r. exact Hs.
+  Qed.
+
+  Lemma wn_atom_inv : forall l : list tok, wn (BA :: l) -> wn l.
+  Proof. intros l H. inversion H; subst. assumption. Qed.
+
+  Lemma chk_snoc_atom : forall (x : list tok) st, chk keqb st (x ++ [BA]) = chk keqb st x.
+  Proof.
+    induction x as [|t x IH]; intros st; simpl.
+    - reflexivity.
+    - destruct t as [k|k|]; try apply IH.
+      destruct st as [|k' st]; [reflexivity|]. destruct (keqb k k'); [apply IH | reflexivity].
+  Qed.
+  Lemma wn_snoc_atom_inv : forall x : list tok, wn (x ++ [BA]) -> wn x.
+  Proof. intros x H. apply chk_iff_wn. apply chk_iff_wn in H. rewrite chk_snoc_atom in H. exact H. Qed.
 End NestFacts.
